@@ -9,6 +9,8 @@ CONSTANTS
   CacheKey = "none"
   HistRule = 1
   HistLen = 3
+  AllowedAlphabet <- PlainAlphabet
+  PollAlphabet <- CaseBlankAlphabet
 SPECIFICATION PSpec
 INVARIANTS AcceptedNeverForbidden
 CHECK_DEADLOCK FALSE
